@@ -49,8 +49,10 @@ structure Variant where
       `notes/fix-D7.patch`: `with self._lock: _check_writable(); compress(data); _sendall(frame)`;
       the harness observes which shape the code has and drives the model with the matching flag) -/
   compressUnderLock : Bool := false
-  /-- D8 repaired: `close()` sets `closing` under the write lock, right after writing the Close
-      frame; the reply-Close path sets `closed` then clears `closing` under the write lock -/
+  /-- D8 repaired (the step order of `notes/fix-D8.patch`): `session.write` stores `closing = True`
+      under the write lock right after it has written a Close frame; `_check_writable` reads
+      `closing` before `closed` (keeping the precedence of the errors); the reply path and
+      `on_disconnect` store `closed = True` before `closing = False` -/
   closeAtomic : Bool := false
   deriving Repr, DecidableEq, Inhabited
 
@@ -137,6 +139,10 @@ inductive Step
   | zreset
   | acquire
   | chkSock | chkClosed | chkClosing
+  /-- repaired `_check_writable`: `is_closing = self.websocket.is_closing` (a thread-local copy) -/
+  | ldClosing
+  /-- repaired `_check_writable`: `if is_closed: raise Closed` then `if <copy>: raise Closing` -/
+  | chkBoth
   | write1 (f : FrameSrc)
   | write2 (f : FrameSrc)
   | release
@@ -149,9 +155,13 @@ inductive Step
   | setSockNone
   deriving Repr, DecidableEq, Inhabited
 
+/-- the state checks of `session.write` (`_check_writable`) -/
+def checks (v : Variant) : List Step :=
+  if v.closeAtomic then [.chkSock, .ldClosing, .chkBoth] else [.chkSock, .chkClosed, .chkClosing]
+
 /-- `session.write(frame bytes)`: lock, the three state checks, the write in two halves, unlock -/
-def writeProg (f : FrameSrc) : List Step :=
-  [.acquire, .chkSock, .chkClosed, .chkClosing, .write1 f, .write2 f, .release]
+def writeProg (v : Variant) (f : FrameSrc) : List Step :=
+  [.acquire] ++ checks v ++ [.write1 f, .write2 f, .release]
 
 /-- `send_text` / `send_binary` -/
 def sendData (v : Variant) (cfg : Cfg) (op : Nat) (payload : Bytes) (compress : Bool) : List Step :=
@@ -159,17 +169,17 @@ def sendData (v : Variant) (cfg : Cfg) (op : Nat) (payload : Bytes) (compress : 
     let z : List Step := [.compress payload, .flush] ++ (if cfg.noTakeover then [.zreset] else [])
     let f : FrameSrc := ⟨op, .zreg⟩
     if v.compressUnderLock then
-      [.acquire, .chkSock, .chkClosed, .chkClosing] ++ z ++ [.write1 f, .write2 f, .release]
-    else z ++ writeProg f
-  else writeProg ⟨op, .lit payload⟩
+      [.acquire] ++ checks v ++ z ++ [.write1 f, .write2 f, .release]
+    else z ++ writeProg v f
+  else writeProg v ⟨op, .lit payload⟩
 
 /-- `WebSocket.close(code, reason)`: test, send, set (WebSocketErrors of the send are swallowed) -/
 def closeBody (v : Variant) (code : Option Nat) (reason : Bytes) : List Step :=
   let f : FrameSrc := ⟨8, .lit (buildClosePayload code reason)⟩
   if v.closeAtomic then
-    [.retIfClosed, .retIfClosing, .acquire, .chkSock, .chkClosed, .chkClosing, .write1 f, .write2 f,
-     .setClosing true, .release, .setCloseTime]
-  else [.retIfClosed, .retIfClosing] ++ writeProg f ++ [.setClosing true, .setCloseTime]
+    [.retIfClosed, .retIfClosing, .acquire] ++ checks v ++
+      [.write1 f, .write2 f, .setClosing true, .release, .setClosing true, .setCloseTime]
+  else [.retIfClosed, .retIfClosing] ++ writeProg v f ++ [.setClosing true, .setCloseTime]
 
 /-- `_close_socket()` as run by the loop thread when the loop ends, then the `finally` clause -/
 def closeSocketProg : List Step :=
@@ -179,23 +189,22 @@ def altSteps (v : Variant) : Alt → List Step
   | .replyClose =>
     -- `yield Closed; closing = False; closed = True`, `if self.is_closed: break`,
     -- `while not websocket.is_closed`, `_close_socket()`, `finally: _close_socket()`
-    if v.closeAtomic then
-      [.acquire, .setClosed, .setClosing false, .release, .rdClosed, .rdClosed] ++ closeSocketProg
+    if v.closeAtomic then [.setClosed, .setClosing false, .rdClosed, .rdClosed] ++ closeSocketProg
     else [.setClosing false, .setClosed, .rdClosed, .rdClosed] ++ closeSocketProg
 
 def compile (v : Variant) (cfg : Cfg) : Call → List Step
   | .sendText p c => sendData v cfg 1 p c
   | .sendBinary p c => sendData v cfg 2 p c
-  | .sendPing d => writeProg ⟨9, .lit d⟩
-  | .sendPong d => writeProg ⟨10, .lit d⟩
+  | .sendPing d => writeProg v ⟨9, .lit d⟩
+  | .sendPong d => writeProg v ⟨10, .lit d⟩
   | .close code r => closeBody v code r
   -- `_recv`, `feed`: `if self.is_closed`, the pong, `if self.is_closed: break`, `while not is_closed`
-  | .onPing d => [.rdSock, .rdClosed] ++ writeProg ⟨10, .lit d⟩ ++ [.rdClosed, .rdClosed]
+  | .onPing d => [.rdSock, .rdClosed] ++ writeProg v ⟨10, .lit d⟩ ++ [.rdClosed, .rdClosed]
   -- `_recv`, `feed`, `_on_close`: is_closed, is_closing; echo = `close(); closing = True`
   | .onClose code r =>
     [.rdSock, .rdClosed, .rdClosed, .brIfClosing .replyClose] ++ closeBody v code r ++
       [.setClosing true, .rdClosed, .rdClosed]
-  | .autoPing => writeProg ⟨9, .lit []⟩ ++ [.rdClosed]
+  | .autoPing => writeProg v ⟨9, .lit []⟩ ++ [.rdClosed]
 
 /-- the application message a call sends (what the peer must end up with) -/
 def Call.msg : Call → Bytes
@@ -251,6 +260,8 @@ structure Cur where
   zout : Option (Bytes × Bytes) := none
   /-- the event loop ends with this call -/
   halt : Bool := false
+  /-- `is_closing` as read by the repaired `_check_writable` -/
+  ldc : Bool := false
   deriving Repr, DecidableEq, Inhabited
 
 structure Thread where
@@ -308,6 +319,11 @@ def exec (v : Variant) (t : Tid) (st : Step) (r : List Step) (sh : Shared) (c : 
     else (sh, { c with rest := r })
   | .chkClosing =>
     if sh.closing then (sh, { c with rest := toRelease r, err := some .closing })
+    else (sh, { c with rest := r })
+  | .ldClosing => (sh, { c with rest := r, ldc := sh.closing })
+  | .chkBoth =>
+    if sh.closed then (sh, { c with rest := toRelease r, err := some .closed })
+    else if c.ldc then (sh, { c with rest := toRelease r, err := some .closing })
     else (sh, { c with rest := r })
   | .write1 f => ({ sh with wire := sh.wire ++ [⟨t, c.idx, false, descOf f c⟩] }, { c with rest := r })
   | .write2 f =>
